@@ -208,7 +208,7 @@ def main(tier: str, seed: int) -> int:
         chk.add_case({"kind": kind, "up": up, "down": down, "acts": tr["stimulus"]["actions"]},
                      nontrivial=any(a in ("shutdown", "reset") for a in tr["stimulus"]["actions"]))
     res = tlc.validate("NodePowerTrace", traces)
-    common.judge_traces(chk, "NodePower", traces, res, sig_fn)
+    common.judge_traces(chk, "NodePower", traces, res, sig_fn, selftest="NodePowerTrace")
     for tr in traces[:2]:
         chk.sample({"cfg": tr["cfg"], "meta": tr["meta"], "events": tr["ev"][:10]})
     chk.assumptions += [
